@@ -25,6 +25,32 @@ KNOWN_HELPERS = {
 MAX_DEPTH = 3
 
 
+def _is_min_scan(h):
+    """A one-parameter helper that returns the minimum element of its argument (None when empty): a scan loop with an
+    incumbent that starts as None, or min(arg, ..., default=None).  Such a helper plays a role of its own in the rules
+    (C13: recompute of `best`), whatever it is called - it is analysed as a function, not inlined."""
+    a = h.args
+    if len(a.posonlyargs + a.args) != 1 or a.vararg or a.kwarg:
+        return False
+    p = (a.posonlyargs + a.args)[0].arg
+    body = _strip_doc(h.body)
+    rets = [n for s_ in body for n in ast.walk(s_) if isinstance(n, ast.Return)]
+    if not rets:
+        return False
+    for r in rets:
+        v = r.value
+        if isinstance(v, ast.Call) and isinstance(v.func, ast.Name) and v.func.id == 'min' and v.args \
+                and isinstance(v.args[0], ast.Name) and v.args[0].id == p:
+            return True
+    loops = [n for n in body if isinstance(n, ast.For) and isinstance(n.iter, ast.Name) and n.iter.id == p]
+    if loops and all(isinstance(r.value, ast.Name) for r in rets):
+        inc = rets[-1].value.id
+        init_none = any(isinstance(n, ast.Assign) and isinstance(n.targets[0], ast.Name) and n.targets[0].id == inc
+                        and isinstance(n.value, ast.Constant) and n.value.value is None for n in body)
+        return init_none
+    return False
+
+
 def _always_returns(stmts):
     if not stmts:
         return False
@@ -213,6 +239,70 @@ def expand_call(call, helper, kind, targets, uid, self_arg=None):
     return pre + low
 
 
+def _fold_return_vars(fnode):
+    """`x = E ; return x` with x used nowhere else  ->  `return E` (the named-result spelling of a return)."""
+    uses = {}
+    for n in ast.walk(fnode):
+        if isinstance(n, ast.Name):
+            uses[n.id] = uses.get(n.id, 0) + 1
+    changed = [False]
+    pairs = {}
+
+    def count(node):
+        for field in ('body', 'orelse', 'finalbody'):
+            blk = getattr(node, field, None)
+            if isinstance(blk, list) and blk and isinstance(blk[0], ast.stmt):
+                for a, b in zip(blk, blk[1:]):
+                    if isinstance(a, ast.Assign) and len(a.targets) == 1 and isinstance(a.targets[0], ast.Name) \
+                            and isinstance(b, ast.Return) and isinstance(b.value, ast.Name) and b.value.id == a.targets[0].id:
+                        pairs[b.value.id] = pairs.get(b.value.id, 0) + 1
+                for s in blk:
+                    if not isinstance(s, (ast.FunctionDef, ast.ClassDef)):
+                        count(s)
+        for h in getattr(node, 'handlers', []) or []:
+            for a, b in zip(h.body, h.body[1:]):
+                if isinstance(a, ast.Assign) and len(a.targets) == 1 and isinstance(a.targets[0], ast.Name) \
+                        and isinstance(b, ast.Return) and isinstance(b.value, ast.Name) and b.value.id == a.targets[0].id:
+                    pairs[b.value.id] = pairs.get(b.value.id, 0) + 1
+            for s in h.body:
+                count(s)
+    count(fnode)
+
+    def fix(stmts):
+        out = []
+        i = 0
+        while i < len(stmts):
+            s = stmts[i]
+            nxt = stmts[i + 1] if i + 1 < len(stmts) else None
+            if isinstance(s, ast.Assign) and len(s.targets) == 1 and isinstance(s.targets[0], ast.Name) \
+                    and isinstance(nxt, ast.Return) and isinstance(nxt.value, ast.Name) \
+                    and nxt.value.id == s.targets[0].id and uses.get(nxt.value.id) == 2 * pairs.get(nxt.value.id, 0):
+                r = ast.Return(value=s.value)
+                ast.copy_location(r, nxt)
+                out.append(r)
+                changed[0] = True
+                i += 2
+                continue
+            out.append(s)
+            i += 1
+        return out
+
+    def walk(node):
+        for field in ('body', 'orelse', 'finalbody'):
+            blk = getattr(node, field, None)
+            if isinstance(blk, list) and blk and isinstance(blk[0], ast.stmt):
+                for s in blk:
+                    if not isinstance(s, (ast.FunctionDef, ast.ClassDef)):
+                        walk(s)
+                setattr(node, field, fix(blk))
+        for h in getattr(node, 'handlers', []) or []:
+            for s in h.body:
+                walk(s)
+            h.body = fix(h.body)
+    walk(fnode)
+    return changed[0]
+
+
 def inline_program(prog):
     """Rewrite, in place, every function of the program whose body calls a new private helper at statement level."""
     count = 0
@@ -224,7 +314,7 @@ def inline_program(prog):
         f = call.func
         if isinstance(f, ast.Name) and f.id.startswith('_') and f.id not in KNOWN_HELPERS:
             r = prog.resolve_expr(fn.module, f)
-            if r and r[0] == 'func' and r[1].node is not fn.node and r[1].outer is None:
+            if r and r[0] == 'func' and r[1].node is not fn.node and r[1].outer is None and not _is_min_scan(r[1].node):
                 return r[1].node, None
         if isinstance(f, ast.Attribute) and isinstance(f.value, ast.Name) and f.attr.startswith('_') \
                 and f.attr not in KNOWN_HELPERS and fn.cls is not None and fn.node.args.args \
@@ -279,7 +369,8 @@ def inline_program(prog):
             continue
         before = count
         fn.node.body = rewrite_block(fn, fn.node.body, 0)
-        if count != before:
+        folded = _fold_return_vars(fn.node)
+        if count != before or folded:
             ast.fix_missing_locations(fn.node)
             for n in ast.walk(fn.node):
                 for c in ast.iter_child_nodes(n):
